@@ -484,6 +484,31 @@ def rewrite_tokens(src, modpath, report):
             bump('R13')
             k = j + 1
             continue
+        # R15  `x |= E;` / `x &= E;`  ->  `x = bor(x, E);` / `x = band(x, E);`  (shim trait for bool and the
+        #      unsigned integers, both operands evaluated as with the operator; Verus has no `|`/`&` on bool)
+        if t.kind == 'punct' and t.text in ('|=', '&='):
+            lhs = prev_code(toks, k)
+            if toks[lhs].kind == 'ident' and toks[prev_code(toks, lhs)].text in (';', '{', '}'):
+                # rhs up to the terminating `;` at bracket depth 0
+                j = next_code(toks, k)
+                depth = 0
+                e = j
+                while True:
+                    if toks[e].kind == 'punct' and toks[e].text in '([{':
+                        depth += 1
+                    elif toks[e].kind == 'punct' and toks[e].text in ')]}':
+                        depth -= 1
+                    elif toks[e].kind == 'punct' and toks[e].text == ';' and depth == 0:
+                        break
+                    e += 1
+                fn = 'bor' if t.text == '|=' else 'band'
+                name = toks[lhs].text
+                edits.append((t.start, toks[j].start, '= crate::shim::flat::%s(%s, ' % (fn, name)))
+                edits.append((toks[e].start, toks[e].start, ')'))
+                bump('R15')
+                k = k + 1
+                continue
+            raise GenError('R15: compound bit assignment with a complex left-hand side in %s' % modpath)
         # R14  Decimal::from(E) -> Decimal::from_abort(E): a trait-impl method cannot carry the strict-mode
         #      precondition (E < 2^96); the shim's inherent function is the same conversion with that contract
         j = seq_match(toks, k, ['Decimal', '::', 'from', '('])
@@ -1186,7 +1211,8 @@ def weave(src, modpath, contracts, mode, report, used, vacuity_props=None):
 # --------------------------------------------------------------------------------------
 # assembly
 # --------------------------------------------------------------------------------------
-HEAD = '''#![allow(unused_imports, dead_code, unused_variables, unused_mut, deprecated, unused_parens, non_snake_case, unused_braces, unreachable_patterns)]
+HEAD = '''#![feature(allocator_api)]
+#![allow(unused_imports, dead_code, unused_variables, unused_mut, deprecated, unused_parens, non_snake_case, unused_braces, unreachable_patterns)]
 use vstd::prelude::*;
 use vstd::std_specs::cmp::*;
 use vstd::std_specs::ops::*;
